@@ -34,7 +34,10 @@ InNamespace(id, key) == IsPrefixSeq(ClientStorePrefix(id), key)
 (* followed an upgrade the counterparty never performed: Active, but no    *)
 (* later header of the old chain verifies).                                *)
 (***************************************************************************)
-InitNS(n0) == [next |-> n0, cl |-> <<>>]
+\* h: how far the client has followed its counterparty (recovery needs a substitute that is ahead of the subject):
+\* a solo machine starts at sequence 1 and advances by one per update, a tendermint client takes the next value of a
+\* logical clock on creation and on every update; an upgrade moves to the next revision (far ahead).
+InitNS(n0) == [next |-> n0, clock |-> 0, cl |-> <<>>]
 
 Known(S, c) == c \in DOMAIN S.cl
 UnknownId   == FormatClientId("tm", 999)
@@ -46,7 +49,8 @@ Target(S, a) == IF a.op = "create" THEN FormatClientId(a.ty, S.next) ELSE IdOf(S
 \* ---- guards (in the order of 02-client/keeper/client.go) -----------------------------------
 G_Exists(S, c)      == Known(S, c)
 G_Active(S, c)      == Known(S, c) /\ S.cl[c].status = "active"
-G_SubjectNotActive(S, c) == Known(S, c) /\ S.cl[c].status = "frozen"
+G_SubjectNotActive(S, c) == Known(S, c) /\ S.cl[c].status \in {"frozen", "upgraded"}
+G_SubstituteAhead(S, c, s) == Known(S, c) /\ Known(S, s) /\ S.cl[s].h > S.cl[c].h
 G_SameType(S, c, s) == Known(S, c) /\ Known(S, s) /\ S.cl[c].ty = S.cl[s].ty
 G_Distinct(c, s)    == c # s
 G_Upgradable(S, c)  == Known(S, c) /\ S.cl[c].ty = "tm"
@@ -56,7 +60,8 @@ Guard(S, a) ==
       [] a.op = "update"       -> G_Active(S, a.c)
       [] a.op = "misbehaviour" -> G_Active(S, a.c)
       [] a.op = "upgrade"      -> G_Active(S, a.c) /\ G_Upgradable(S, a.c)
-      [] a.op = "recover"      -> G_Distinct(a.c, a.s) /\ G_SubjectNotActive(S, a.c) /\ G_Active(S, a.s) /\ G_SameType(S, a.c, a.s)
+      [] a.op = "recover"      -> /\ G_Distinct(a.c, a.s) /\ G_SubjectNotActive(S, a.c) /\ G_Active(S, a.s)
+                                  /\ G_SameType(S, a.c, a.s) /\ G_SubstituteAhead(S, a.c, a.s)
 
 \* abstract names of the keys an accepted operation writes, relative to the target's namespace
 Suffixes(a) ==
@@ -72,17 +77,22 @@ Writes(S, a) == { FullClientKey(Target(S, a), sfx) : sfx \in Suffixes(a) }
 \* effect on the model state, given that the operation was accepted
 Effect(S, a) ==
     CASE a.op = "create"       -> [next |-> S.next + 1,
-                                   cl |-> Append(S.cl, [id |-> FormatClientId(a.ty, S.next), ty |-> a.ty, status |-> "active"])]
-      [] a.op = "update"       -> S
+                                   clock |-> IF a.ty = "tm" THEN S.clock + 1 ELSE S.clock,
+                                   cl |-> Append(S.cl, [id |-> FormatClientId(a.ty, S.next), ty |-> a.ty, status |-> "active",
+                                                        h |-> IF a.ty = "tm" THEN S.clock + 1 ELSE 1])]
+      [] a.op = "update"       -> IF S.cl[a.c].ty = "tm"
+                                  THEN [S EXCEPT !.clock = @ + 1, !.cl[a.c].h = S.clock + 1]
+                                  ELSE [S EXCEPT !.cl[a.c].h = @ + 1]
       [] a.op = "misbehaviour" -> [S EXCEPT !.cl[a.c].status = "frozen"]
-      [] a.op = "upgrade"      -> [S EXCEPT !.cl[a.c].status = "upgraded"]
-      [] a.op = "recover"      -> [S EXCEPT !.cl[a.c].status = "active"]
+      [] a.op = "upgrade"      -> [S EXCEPT !.cl[a.c].status = "upgraded", !.cl[a.c].h = @ + 1000]
+      [] a.op = "recover"      -> [S EXCEPT !.cl[a.c].status = "active", !.cl[a.c].h = S.cl[a.s].h]
 
 Step(S, a) == IF Guard(S, a) THEN [res |-> "ok", S |-> Effect(S, a), writes |-> Writes(S, a)]
               ELSE [res |-> "err", S |-> S, writes |-> {}]
 
 \* the state the model is in after the real code reported `res` (trace validation follows the real result)
-Follow(S, a, res) == IF res = "ok" /\ (a.op = "create" \/ Known(S, a.c)) THEN Effect(S, a) ELSE S
+Follow(S, a, res) == IF res = "ok" /\ (a.op = "create" \/ (Known(S, a.c) /\ (a.op = "recover" => Known(S, a.s))))
+                     THEN Effect(S, a) ELSE S
 
 (***************************************************************************)
 (* The property on one step                                                *)
